@@ -58,9 +58,23 @@ const queryTimeout = 5 * time.Second
 
 // runAll collects every output of the query; an error output ends the run and is returned as err;
 // exceeding the timeout yields timeoutError
+type panicError struct{ msg string }
+
+func (p panicError) Error() string { return "panic: " + p.msg }
+
+// panics of the implementation seen since the last reset (a panic is reported as an error result and logged)
+var panicLog []string
+
 func runAll(c *gojq.Code, in any, vals ...any) (outs []any, err error) {
 	ctx, cancel := context.WithTimeout(context.Background(), queryTimeout)
 	defer cancel()
+	defer func() {
+		if r := recover(); r != nil {
+			msg := fmt.Sprint(r)
+			panicLog = append(panicLog, msg)
+			err = panicError{msg}
+		}
+	}()
 	it := c.RunWithContext(ctx, in, vals...)
 	for n := 0; ; n++ {
 		v, ok := it.Next()
@@ -138,6 +152,11 @@ var fixedRegexes = []string{
 	"a|b", "a|", "|a", "é|€", "a|ab", "ab|a",
 	"", "a*", "(a*)", "b*?", "(?<x>a*)", "(|a)", "x*", "^|$", "(a|)*", "a?", "(a?)(b?)", "é*", "(?:)", "\\b|\\B", "a*?", "(a*)*", "()", "(?<e>)", ".*", ".*?", "(.*)", "[^a]*",
 	"a+", "(ab)+", ".+", "a{2}", "a{0,1}", "(?i)a", "(?i:é)", "[aA]",
+	// alternations of groups under * / +, optional, nested, overlapping and non-participating groups: captures whose
+	// offsets are smaller than those of earlier-numbered groups, or that lie inside / before one another
+	"(?:(a)|(b))*", "(?:(a)|(b))+", "((a)|(b))*", "(?:(é)|(b)|(€))*", "(?:(?<x>a)|(?<y>b))+", "(?:(a)|(é)|(\\s))+", "(?:(.)|(\\n))*",
+	"(a)?(b)?", "(b)?(a)?", "((a)|b)*", "(.)(?:(a)|(b))*", "(?:(a)|(b)|(A))*$", "((.)(.))*", "(?:(\\w)|(\\W))+", "(?:(\\pL)|(\\pM)|(.))*",
+	"(?:(€)|(\U0001f600)|(a))+", "((?:(a)|(é))+)(b)?", "(?:(a)(b)?|(b))*", "(?:(?<p>.)(?<q>a)?)*", "(?:()|(a))*", "(?:(a)|())+", "((a*)(b*))*", "(?:(b)|(a)|(é))*?$",
 }
 
 var flagSets = []any{nil, "", "g", "i", "m", "gi", "gm", "im", "gim", "ig"}
@@ -148,7 +167,12 @@ func randRegex(r *Rng, depth int) string {
 	if depth <= 0 || r.Chance(2, 5) {
 		return atoms[r.Intn(len(atoms))]
 	}
-	switch r.Intn(7) {
+	switch r.Intn(9) {
+	case 7:
+		// alternation of capturing groups under a repetition: later iterations re-bind earlier-numbered groups
+		return "(?:(" + randRegex(r, depth-1) + ")|(" + randRegex(r, depth-1) + "))" + []string{"*", "+", "*?"}[r.Intn(3)]
+	case 8:
+		return "(" + randRegex(r, depth-1) + ")?(" + randRegex(r, depth-1) + ")?"
 	case 0:
 		return randRegex(r, depth-1) + randRegex(r, depth-1)
 	case 1:
@@ -360,18 +384,23 @@ func runModel(c *Ctx) {
 // stream regex: the property's statements on the implementation alone
 
 type oracleRunner struct {
-	c     *Ctx
-	nfail int
-	evals int
+	c         *Ctx
+	nfail     int
+	evals     int
+	perOracle map[string]int
 }
 
 func (o *oracleRunner) fail(name, subject, re string, flags any, detail string) {
 	o.failCase(name, caseText(subject, re, flags), detail)
 }
 
+// at most 6 failing inputs are recorded per oracle, so that one broken oracle does not hide another
 func (o *oracleRunner) failCase(name, text, detail string) {
 	o.nfail++
-	if o.nfail <= 40 {
+	if o.perOracle == nil {
+		o.perOracle = map[string]int{}
+	}
+	if o.perOracle[name]++; o.perOracle[name] <= 6 {
 		o.c.Violation("oracle=%s %s :: %s", name, text, detail)
 	}
 }
@@ -413,7 +442,16 @@ func (o *oracleRunner) oneCase(s, re string, flags any) {
 
 	o.evals++
 	c.Emit("(case %s)", caseText(s, re, flags))
+	panicLog = panicLog[:0]
+	defer func() {
+		if len(panicLog) > 0 {
+			o.fail("no-panic", s, re, flags, "the implementation panicked: "+panicLog[0])
+		}
+	}()
 	ms, err := runAll(qMatch, s, re, flags)
+	if _, isP := err.(panicError); isP {
+		return
+	}
 	if _, isT := err.(timeoutError); isT {
 		o.fail("terminates:match", s, re, flags, "match did not finish within the timeout")
 		return
